@@ -182,3 +182,12 @@ package main
 //@   loop 1 invariant h.bridgeInfo == old(h.bridgeInfo)
 //@   ensures {replaces-the-list} err == nil ==> fresh(h.bridgeInfo)
 //@   ensures {failed-load-keeps-the-old-list} err != nil ==> h.bridgeInfo == old(h.bridgeInfo)
+//
+// The broker's relay-pattern check (C06): the pattern the proxy announced (for a legacy proxy: the operator's presumed
+// pattern) must be judged a superset of the broker's allowed pattern. sup/ruleExact/ruleName: common/namematcher.
+//@ func (ctx *BrokerContext) CheckProxyRelayPattern(pattern string, nonSupported bool) (r bool)
+//@   props C06
+//@   strings smtlib
+//@   requires ctx != nil
+//@   ensures {announced-pattern} !nonSupported ==> r == sup(ruleExact(pattern), ruleName(pattern), ruleExact(ctx.allowedRelayPattern), ruleName(ctx.allowedRelayPattern))
+//@   ensures {legacy-proxies-get-the-presumed-pattern} nonSupported ==> r == sup(ruleExact(ctx.presumedPatternForLegacyClient), ruleName(ctx.presumedPatternForLegacyClient), ruleExact(ctx.allowedRelayPattern), ruleName(ctx.allowedRelayPattern))
